@@ -7,6 +7,16 @@ import json, os, re
 HERE = os.path.dirname(os.path.dirname(os.path.abspath(__file__)))
 PROPS = os.path.join(HERE, "lean", "SPProofs", "Properties")
 EXTRA = {
+    "C24": [("SPProofs.Misc.C24Laws", "SPModel.C24." + n, "full") for n in (
+                "cross_eq_multiCross", "cross_multi_geo", "cross_multi_error", "repeat_nil_eq", "repeat_nil_geo",
+                "repeat_nil_error", "repeat_nil_eq_of_align", "repeat_nil_cross", "merge_singleton_eq",
+                "merge_singleton_geo", "merge_singleton_cross", "merge_singleton_multiCross",
+                "Witness.cross_multi_error_differs", "Witness.merge_singleton_false_weight",
+                "Witness.merge_singleton_false_equal")],
+    "C16": [("SPProofs.Properties.C25", "SPModel.C25." + n, "full") for n in (
+                "create_n_pos", "create_n_ge_minTrials", "create_n_ge_round", "create_n_ge_round_post",
+                "create_n_eq", "create_n_least", "create_n_least_post", "create_n_le_of_common_multiple",
+                "create_n_sustain_one", "geo_n_eq", "nest_trials")],
     "C02": [("SPProofs.Pipeline.SeqMain", "SPModel.C02.sequences_iff_models", "full"),
             ("SPProofs.Pipeline.SeqMain", "SPModel.C02.sequence_unique", "full"),
             ("SPProofs.Pipeline.SeqMain", "SPModel.Pipeline.meaningAll_iff_seq", "full"),
